@@ -119,6 +119,12 @@ FORBIDDEN = {
     "open": HDR + "@constexpr\ndef ce(a):\n    f = open('/etc/hostname')\n    return a\n\ndb.Setting = ce(1)\n",
     "eval": HDR + "@constexpr\ndef ce(a):\n    return eval('a + 1')\n\ndb.Setting = ce(1)\n",
     "exec": HDR + "@constexpr\ndef ce(a):\n    exec('b = 2')\n    return a\n\ndb.Setting = ce(1)\n",
+    "eval_bound": HDR + "@constexpr\ndef ce(a):\n    ev = eval\n    return ev('6*7') + a\n\ndb.Setting = ce(1)\n",
+    "eval_passed": HDR + "@constexpr\ndef ce(a):\n    return list(map(eval, ['1', '2']))[0] + a\n\ndb.Setting = ce(1)\n",
+    "exec_default": HDR + "@constexpr\ndef ce(a, run=exec):\n    run('b = 2')\n    return a\n\ndb.Setting = ce(1)\n",
+    "open_bound": HDR + "@constexpr\ndef ce(a):\n    reader = open\n    return a\n\ndb.Setting = ce(1)\n",
+    "open_with": HDR + "@constexpr\ndef ce(a):\n    with open('/etc/hostname') as fh:\n        n = len(fh.read())\n    return a + n\n\ndb.Setting = ce(1)\n",
+    "eval_spaced": HDR + "@constexpr\ndef ce(a):\n    return eval ('a + 1')\n\ndb.Setting = ce(1)\n",
 }
 
 
